@@ -40,6 +40,16 @@ CURATED = [
     ("{[#A][#B].[#C]}.{#A=CC[$],#B=[$]C[$],#C=[$]CO}", False),
     ("{[#M][#M].[#M]}.{#M=[$]CC[$]O}", False),
     ("{[#A]}.{#A=CC(=O)[O-].[Na+]}", False),
+    # ring bonds between aromatic atoms that are not aromatic themselves (fluorene, 9,10-dihydrophenanthrene)
+    ("{[#A]}.{#A=C1c2ccccc2-c2ccccc12}", False),
+    ("{[#A]}.{#A=c1ccc2c(c1)CCc1ccccc1-2}", False),
+    ("{[#A][#B]}.{#A=C1([$])c2ccccc2-c2ccccc12,#B=[$]CC}", False),
+]
+# molecules with more than 100 atoms (rare: the real engine needs about a second for them)
+BIG = [
+    ("{[#OHter][#PEO]|18[#OHter]}.{#PEO=[$]COC[$],#OHter=[$]O}", False),
+    ("{[#Hter][#PS]|8[#Hter]}.{#PS=[$]CC[$]c1ccccc1,#Hter=[$][H]}", False),
+    ("{[#A][#M]|30[#A]}.{#M=[>]CC[<],#A=[$]C}", False),
 ]
 
 
@@ -77,9 +87,12 @@ def _source(rng):
         return {"string": item["multi"], "family": "decomp", "shared_atoms": False, "item": item}
     if roll < 0.75:
         return _repeat_source(rng)
-    if roll < 0.93:
+    if roll < 0.90:
         text, shared = rng.choice(CURATED)
         return {"string": text, "family": "curated", "shared_atoms": shared}
+    if roll < 0.93:
+        text, shared = rng.choice(BIG)
+        return {"string": text, "family": "big", "shared_atoms": shared}
     return {"string": rng.choice(KEKULE_CURATED), "family": "kekule", "shared_atoms": False}
 
 
@@ -92,7 +105,7 @@ def generate(run_seed, prop, tier="quick"):
     ops = []
     n_ops = rng.randint(2, 7)
     pool = ["roundtrip", "embed", "embed", "embed_cg", "embed_cg", "roundtrip_conf", "translate_forward", "reseed",
-            "foreign_rng", "forward", "repermute", "repermute", "reweight"]
+            "foreign_rng", "forward", "repermute", "repermute", "reweight", "preset_positions", "map_copy"]
     for _ in range(n_ops):
         kind = rng.choice(pool)
         op = {"op": kind, "m": rng.randrange(len(sources))}
@@ -107,6 +120,10 @@ def generate(run_seed, prop, tier="quick"):
                        "perm_seed": rng.randrange(2 ** 30)})
         if kind == "reweight":
             op.update({"seed": rng.randrange(2 ** 30), "fraction": rng.choice([0.1, 0.3, 0.6])})
+        if kind == "preset_positions":
+            op["how"] = rng.choice(["shared_zeros", "int_zeros", "own_zeros"])
+        if kind == "map_copy":
+            op["t"] = [rng.choice([1.0, -3.5, 10.0]) for _ in range(3)]
         ops.append(op)
     if not any(o["op"] in ("embed", "embed_cg") for o in ops):
         ops.insert(rng.randrange(len(ops) + 1), {"op": rng.choice(["embed", "embed_cg"]), "m": 0})
@@ -498,6 +515,35 @@ def run_history(scenario):
                                     % (list(shift), bead, [round(float(x), 6) for x in (new - old)]), seq, "translation")
                             break
                     stats["translations"] = stats.get("translations", 0) + 1
+                    event["out"] = "ok"
+            elif kind == "preset_positions":
+                # the caller initialises bead positions with placeholders before mapping
+                if op["how"] == "shared_zeros":
+                    nx.set_node_attributes(cg, np.zeros(3), "position")          # one array object for all beads
+                elif op["how"] == "int_zeros":
+                    for bead in cg.nodes:
+                        cg.nodes[bead]["position"] = np.zeros(3, dtype=int)
+                else:
+                    for bead in cg.nodes:
+                        cg.nodes[bead]["position"] = np.zeros(3)
+                stats["fault:preset-bead-positions:fired"] = stats.get("fault:preset-bead-positions:fired", 0) + 1
+                event["out"] = "ok"
+            elif kind == "map_copy":
+                # a second system: shallow copy of the coarse graph, translated copy of the atoms; mapping the
+                # second system must leave the first one's beads where they are
+                if not have_positions(mol):
+                    event["out"] = "skipped"
+                else:
+                    coords.forward_map_molecule(cg, aa)
+                    check_forward(mol, seq)
+                    cg2 = cg.copy()
+                    aa2 = copy.deepcopy(aa)
+                    shift = np.array(op["t"], dtype=float)
+                    for node in aa2.nodes:
+                        aa2.nodes[node]["position"] = np.asarray(aa2.nodes[node]["position"], dtype=float) + shift
+                    coords.forward_map_molecule(cg2, aa2)
+                    check_forward(mol, seq)          # the original system, judged against its own atoms
+                    stats["fault:second-system-from-shallow-copy:fired"] = stats.get("fault:second-system-from-shallow-copy:fired", 0) + 1
                     event["out"] = "ok"
             elif kind == "repermute":
                 mol.repermute(op["permute"], op["perm_seed"], op["relabel"])
